@@ -335,7 +335,7 @@ fn c14_units(tier: Tier) -> Vec<Unit> {
     units.push(Unit::new(
         "set_handler",
         4,
-        "ER0=113 with every vector number 0-255 (and 256, 2^16, 2^31, 0xffffffff) x handler addresses {on-chip RAM, DRAM, upper byte set}; for vectors 1-63 an interrupt of that vector (and of two other vectors) is then accepted to observe the installation; other vectors must change nothing",
+        "ER0=113 with every vector number 0-255 (and 256, 2^16, 2^31, 0xffffffff) x handler addresses {on-chip RAM, DRAM, upper byte set}; for vectors 1-63 an interrupt of that vector (and of two other vectors) is then accepted to observe the installation, and a request of that vector raised while interrupts are masked must enter the handler once the mask is cleared; other vectors must change nothing",
         move |ctx, chunk| {
             ensure_socket(ctx);
             let handlers: [u32; 3] = [0x00ffc400, 0x00412344, 0x12ffc800];
@@ -411,6 +411,35 @@ fn c14_units(tier: Tier) -> Vec<Unit> {
                                     verdict = Some(format!("set_handler({}, ..) also redirected vector {}", v, probe));
                                 }
                             }
+                        }
+                    }
+                    if verdict.is_none() && (1..=63).contains(&v) {
+                        // a request that is raised while interrupts are masked enters the installed address once the mask is cleared
+                        let mut rc = Case::new(0x410000, &[]);
+                        rc.code_len = 0;
+                        rc.code_sticky = true;
+                        rc.er = dom::background_regs();
+                        rc.er[7] = 0x00ffe700;
+                        rc.ccr = 0x80;
+                        rc.kind = Kind::Req(v as u8);
+                        ctx.m.cpu.vh_clear_pending_interrupts();
+                        let _ = ctx.execute(&rc);
+                        rc.kind = Kind::Bound;
+                        let _ = ctx.execute(&rc);
+                        let pc_masked = ctx.m.cpu.vh_pc();
+                        rc.ccr = 0x00;
+                        let a3 = ctx.execute(&rc);
+                        let pc_after = ctx.m.cpu.vh_pc();
+                        let wl = ctx.wlog_all();
+                        for a in wl {
+                            ctx.m.mark_dirty(a);
+                            ctx.m.accept(a);
+                        }
+                        ctx.m.cpu.vh_clear_pending_interrupts();
+                        if pc_masked != 0x410000 {
+                            verdict = Some(format!("vector {}: the request was accepted while CCR.I was set (PC {:06x})", v, pc_masked));
+                        } else if !matches!(a3, Actual::Ok(_)) || pc_after != (h & 0xffffff) {
+                            verdict = Some(format!("after set_handler({}, {:08x}) a request raised while interrupts were masked does not enter the handler once the mask is cleared: PC {:06x} ({:?})", v, h, pc_after, a3));
                         }
                     }
                     if let Some(msg) = verdict {
